@@ -16,6 +16,12 @@ CHECKS = {
  "C18": dict(category="model_checking", technique="same exploration as C03 with an independent record scanner as oracle",
    text="Same layouts, ranges and follow-ups as C03; after every completed pass an independent scanner (own decoder of the beansdb record layout, Go hash/crc32) reads every data file of the resolved range: each record must be the reference map's current record of its key, at most once; files outside the range are byte-identical except one earlier file that may only grow; an identical second pass releases nothing and changes no file.",
    note="Quiescent, non-colliding keys. One genuine deviation is recorded as known finding F18a (superseded tombstones kept after a tree rebuild when the range does not start at file 0).", design="4/C18"),
+ "C13": dict(category="model_checking", technique="explicit-state search with reads as transitions over keys forced onto one key hash, per-key reference map",
+   text="Every history up to depth 5 (thorough 6) over set/delete/get of 2-3 keys forced onto one 64-bit hash through the getKeyHash seam (plus the real colliding pair of the Python suite under the real hash), a set of an ordinary key, flush, restarts with/without the tree dump (collision.yaml kept) and every GC range the range check resolves (merge off/on); gets are transitions because they populate the collision table. After every history every key is read and compared with the per-key reference map. The collision handling of the pinned tree violates the property in three ways that are recorded as known findings (F13a-c); one further defect (stale read after restart, hintMgr.maxChunkID not restored) was repaired by a fix: commit.",
+   note="Versions of colliding keys are not compared. Known findings F13a-c are matched by the shape of the minimised history (delete of an unwritten sibling; delete + tree rebuild; GC with merge=false), anything else is reported.", design="4/C13"),
+ "C08": dict(category="model_checking", technique="explicit-state search, differential against a canonical store and independent recomputation of counts/items",
+   text="Every history up to depth 3-5 over set, explicit-revision set, same-value set, delete, restart with/without tree dump and every accepted GC range, on keys in one leaf / sibling leaf / other bucket, on filler populations straddling the list-keys threshold (seam set to 4; 256 default) and the C-search threshold (100); in every state the listing of every prefix of length 0..16 (via 'get @prefix') is recomputed independently (kind, counts, item sets, tombstone lines) from the content the store reports and compared with a canonical store built by inserting the same content once in sorted order (history independence, node lines exact). Plus all eight depth+height classes of the truncated leaf key hash directly on the leaf code.",
+   note="Node-hash formulas are not pinned (only history independence, counts, items). depth+height <= 5 for whole-tree exploration (memory), all 8 classes at leaf level.", design="4/C08"),
 }
 
 NOT_APPLICABLE = []
